@@ -129,6 +129,59 @@ class Runner:
         except Exception as e:
             return ["err", "exc:" + type(e).__name__]
 
+    def op_safe_raw(self, slot, s):
+        """offer the raw string `s` in a slot; True = honoured"""
+        cid = "client_1"
+        try:
+            if slot == "userinfo":
+                ep = self.s.get_endpoint("userinfo")
+                pr = ep.parse_request({}, http_info={"headers": {"authorization": "Bearer " + s}})
+                if "error" in pr:
+                    return False
+                out = ep.process_request(pr)
+                return "response_args" in out and "error" not in out
+            if slot == "introspect":
+                ep = self.s.get_endpoint("introspection")
+                for cid in CLIENTS:
+                    pr = ep.parse_request({"token": s, "client_id": cid, "client_secret": self.secret(cid)})
+                    out = ep.process_request(pr)
+                    if out["response_args"].get("active"):
+                        return True
+                return False
+            if slot == "tokenCode":
+                ep = self.s.get_endpoint("token")
+                for cid in CLIENTS:
+                    pr = ep.parse_request(dict(client_id=cid, client_secret=self.secret(cid), grant_type="authorization_code", code=s,
+                                               redirect_uri=f"https://{cid}.example.com/cb"))
+                    if "error" not in pr:
+                        out = ep.process_request(pr)
+                        if "response_args" in out:
+                            return True
+                return False
+            if slot == "refreshGrant":
+                ep = self.s.get_endpoint("token")
+                for cid in CLIENTS:
+                    pr = ep.parse_request(dict(client_id=cid, client_secret=self.secret(cid), grant_type="refresh_token", refresh_token=s))
+                    if "error" not in pr:
+                        out = ep.process_request(pr)
+                        if "response_args" in out:
+                            return True
+                return False
+            if slot == "revoke":
+                ep = self.s.get_endpoint("token_revocation")
+                before = self.projection()
+                for cid in CLIENTS:
+                    try:
+                        pr = ep.parse_request({"token": s, "client_id": cid, "client_secret": self.secret(cid)})
+                        if "error" not in pr:
+                            ep.process_request(pr)
+                    except Exception:
+                        pass
+                return self.projection() != before
+        except Exception:
+            return False
+        return False
+
     def op_tick(self, n):
         clock.CLOCK.t += n
         return ["ok"]
